@@ -439,6 +439,26 @@ def r_proj_plus(cx):
                 ctxs.add(p[p.index("+") - 1])
             if tail in ("trim_start_matches", "strip_prefix", "trim_left_matches") and (f.innermost_loop(bb) is not None or "{closure" in name):
                 ctxs.add("line")
+    # the line ends are brought to `\n` first: a lone carriage return is a line break too (`str::lines` does not know it),
+    # and a `+` behind it is a token prefix like any other
+    crs = 0
+    for name in sorted(cx.f.lib["fns"]):
+        if not name.startswith(PARSE):
+            continue
+        f = cx.f.fn(name)
+        for bb, t in f.calls():
+            if (f.callee(t) or "").rsplit("::", 1)[-1] in ("replace", "replacen") and len(f.arg_terms(bb)) > 2:
+                pat = mir.strip_refs(f.arg_terms(bb)[1])
+                if pat[0] == "const" and isinstance(pat[2], tuple) and len(pat[2]) == 2 and str(pat[2][1]) == "\r":
+                    rep = mir.strip_refs(f.arg_terms(bb)[2])
+                    if rep[0] == "const" and isinstance(rep[2], tuple) and "\n" in str(rep[2][1]):
+                        crs += 1
+    if "line" not in ctxs:
+        cx.ob("R-PROJ-PLUS", "line-ends", crs > 0,
+              "a lone carriage return is turned into a line feed before the text is taken apart" if crs else
+              "parse_proj no longer turns a lone carriage return into a line feed: with CR line ends the `+` that starts a line "
+              "is not removed (only ` +` and `\\n+` are known) and a `#` comment swallows the following lines",
+              cx.where(cx.f.fn(PARSE).d["span"]))
     ok = " " in ctxs and ("\n" in ctxs or "line" in ctxs)
     cx.ob("R-PROJ-PLUS", "contexts", ok,
           "`+` is removed behind a blank and at the start of a line" if ok else
@@ -447,6 +467,32 @@ def r_proj_plus(cx):
               "behind " + ", ".join(repr(c) for c in sorted(ctxs)) if ctxs else "at the start of the text"),
           cx.where(cx.f.fn(PARSE).d["span"]))
     cx.count("R-PROJ-PLUS", "plus_patterns", n)
+
+
+@rule("R-PROJ-TIDY-VERBATIM", ["C17"])
+def r_proj_tidy_verbatim(cx):
+    """tidy_proj rewrites `a=.. rf=..` to `ellps=a,rf` by moving the *texts* of the two values: the numbers reach the
+    ellipsoid parser exactly as written. It does not parse and re-render them (`format!("{:.3}", a)` drops the digits of
+    the reciprocal flattening beyond the third decimal - GRS80 becomes another ellipsoid, 2 cm away)."""
+    name = "token::tidy_proj"
+    if not cx.f.has_fn(name):
+        cx.ob("R-PROJ-TIDY-VERBATIM", "anchor", False, "anchor-missing: %s" % name)
+        return
+    bad = []
+    for fn in sorted(cx.f.lib["fns"]):
+        if not (fn == name or fn.startswith(name + "::{closure")):
+            continue
+        f = cx.f.fn(fn)
+        for bb, t in f.calls():
+            c = f.callee(t) or ""
+            full = t.get("callee_full") or ""
+            if c.endswith("str>::parse") and full.rsplit("parse::<", 1)[-1].rstrip(">") in ("f32", "f64"):
+                bad.append(t)
+    cx.ob("R-PROJ-TIDY-VERBATIM", "tidy_proj", not bad,
+          "tidy_proj moves parameter values as text" if not bad else
+          "tidy_proj parses a parameter value as a number (and renders it again): the value that reaches the operator is the "
+          "re-rendered one, not the one written", cx.where(bad[0]["span"]) if bad else cx.where(cx.f.fn(name).d["span"]))
+    cx.count("R-PROJ-TIDY-VERBATIM", "functions", 1)
 
 
 @rule("R-PROJ-COMMENT", ["C17"])
